@@ -190,8 +190,9 @@ def DReachable (c : Cfg) (s : DSt) : Prop := ∃ acts, drun c (dinit c) acts = s
 /-- **Specification.** The least solution of the dataflow equations of the group
 `X_i = ⋃ stdIn i  ∪  ⋃ { f j k v | v ∈ X_j, listener k of j leads to i }`, as an inductive predicate. -/
 inductive Derivable (c : Cfg) : Nat → Val → Prop
-  | base (i : Nat) (b : List Val) (r : Val) : b ∈ c.stdIn i → r ∈ b → Derivable c i r
-  | step (j k i : Nat) (v r : Val) : Derivable c j v → (c.topo.outs j)[k]? = some i → r ∈ c.f j k v → Derivable c i r
+  | base (i : Nat) (b : List Val) (r : Val) : i < c.topo.n → b ∈ c.stdIn i → r ∈ b → Derivable c i r
+  | step (j k i : Nat) (v r : Val) : j < c.topo.n → Derivable c j v → (c.topo.outs j)[k]? = some i → r ∈ c.f j k v →
+      Derivable c i r
 
 /-- no listener leads outside the group -/
 def Cfg.closedTopo (c : Cfg) : Prop := ∀ j, j < c.topo.n → ∀ d, d ∈ c.topo.outs j → d < c.topo.n
